@@ -147,6 +147,16 @@ Theorem csr_equiv :
 Proof. exact code_space_range_equiv_lemma. Qed.
 Print Assumptions csr_equiv.
 
+(* cost of the merge loop as the code is written: a round inspects all ordered pairs (at most
+   n^2 candidates), and since every round removes a range there are at most n rounds - cubic
+   in the number of ranges the walk reports (which is the number of root-to-leaf PATHS of the
+   shared tree, not of nodes) *)
+Theorem merge_loop_cost :
+  (forall L cands, merge_candidates L = Some cands -> (length cands <= length L * length L)%nat) /\
+  (forall L, MInv L -> exists L', merge_loop (S (length L)) L = Some L' /\ (length L' <= length L)%nat).
+Proof. exact (conj merge_candidates_bound merge_rounds_bound). Qed.
+Print Assumptions merge_loop_cost.
+
 (* the same for the intermediate result of the walk *)
 Theorem csr_equiv_walk :
   forall csr t nodes, new_codec_tree csr = Some t -> lin_ok nodes t = true ->
